@@ -162,7 +162,7 @@ pub async fn crash_history(ctx: &mut Ctx, root: &std::path::Path, tag: &str) {
             let mut b2 = bytes.clone(); for x in b2[cut as usize..].iter_mut() { *x = 0; }
             std::fs::write(&f, &b2).unwrap();
             let mut w2 = World { cfg: Cfg { nb: 1, segsize: w.cfg.segsize, compression: w.cfg.compression, sync_ms: 5 }, dir: cdir.clone(), db: None, spec: spec_before.clone(),
-                pkeys: w.pkeys.clone(), next_event_idx: w.next_event_idx + 1000, hist: w.hist.clone(), key: w.key.clone(), acked: vec![] };
+                pkeys: w.pkeys.clone(), next_event_idx: w.next_event_idx + 1000, hist: w.hist.clone(), key: w.key.clone(), acked: vec![], force_txid: Default::default(), failed: w.failed.clone() };
             let what = format!("crash with the live segment cut at byte {cut} (transaction starts at {start}, written end {end})");
             w2.hist.push(format!("st crash seg={live_id} cut={cut}"));
             // zeroing a tail that already is zero changes nothing: for the model the cut is then at the record's end
@@ -201,7 +201,7 @@ pub async fn crash_history(ctx: &mut Ctx, root: &std::path::Path, tag: &str) {
                 let files: Vec<&str> = if file == "all" { vec!["index.eidx", "partition.pidx", "stream.sidx"] } else { vec![file] };
                 for f in &files { let p = csd.join(f); match v { None => { let _ = std::fs::remove_file(&p); } Some(n) => { if let Ok(b) = std::fs::read(&p) { std::fs::write(&p, &b[..(n as usize).min(b.len())]).unwrap(); } } } }
                 let mut w2 = World { cfg: Cfg { nb: 1, segsize: w.cfg.segsize, compression: w.cfg.compression, sync_ms: 5 }, dir: cdir.clone(), db: None, spec: w.spec.clone(),
-                    pkeys: w.pkeys.clone(), next_event_idx: w.next_event_idx + 1000, hist: w.hist.clone(), key: w.key.clone(), acked: vec![] };
+                    pkeys: w.pkeys.clone(), next_event_idx: w.next_event_idx + 1000, hist: w.hist.clone(), key: w.key.clone(), acked: vec![], force_txid: Default::default(), failed: w.failed.clone() };
                 let what = format!("crash during rollover: sealed segment {seg} with {file} {}", match v { None => "absent".to_string(), Some(n) => format!("cut to {n} of {len} bytes") });
                 w2.hist.push(format!("st idxcut seg={seg} file={file} len={v:?}"));
                 ctx.emit(&format!("st idxcut seg={seg} file={file} len={}", v.map(|x| x.to_string()).unwrap_or("absent".into())), "ok");
@@ -227,7 +227,7 @@ pub async fn crash_history(ctx: &mut Ctx, root: &std::path::Path, tag: &str) {
         if variant != "empty-dir" { std::fs::write(nd.join("data.evts"), vec![0u8; w.cfg.segsize]).unwrap(); }
         if variant == "zero-file+empty-indexes" { for f in ["index.eidx", "partition.pidx", "stream.sidx"] { std::fs::write(nd.join(f), b"").unwrap(); } }
         let mut w2 = World { cfg: Cfg { nb: 1, segsize: w.cfg.segsize, compression: w.cfg.compression, sync_ms: 5 }, dir: cdir.clone(), db: None, spec: w.spec.clone(),
-            pkeys: w.pkeys.clone(), next_event_idx: w.next_event_idx + 2000, hist: w.hist.clone(), key: w.key.clone(), acked: vec![] };
+            pkeys: w.pkeys.clone(), next_event_idx: w.next_event_idx + 2000, hist: w.hist.clone(), key: w.key.clone(), acked: vec![], force_txid: Default::default(), failed: w.failed.clone() };
         let what = format!("crash while creating segment {} ({variant})", live_id + 1);
         w2.hist.push(format!("st newseg {variant}"));
         ctx.emit(&format!("st idxcut newseg {variant}"), "ok");
@@ -296,6 +296,60 @@ pub async fn space_history(ctx: &mut Ctx, root: &std::path::Path, tag: &str) {
             if line.starts_with("ok") && w.spec.txs.len() > b { check_acked_visible(ctx, &mut w, b, "right after the acknowledgement").await; }
             // retry must not fail forever either
             if !line.starts_with("ok") { let tx2 = mk(&mut w, ctx, left - fixed - delta, false); let _ = do_append(ctx, &mut w, &tx2).await; }
+        }
+        // a MULTI-EVENT transaction of incompressible events whose STORED size misses the free space
+        // of the live segment by a few bytes: it must roll over (any rollover bound below the real
+        // stored size leaves it failing with SegmentFull forever)
+        {
+            let m = *ctx.rng.pick(&[2usize, 3, 6, 12, 24, 48]);
+            let plen = ctx.rng.range(20, 200) as usize;
+            let hard = ctx.rng.chance(2, 3);
+            let mk_multi = |w: &mut World, ctx: &mut Ctx| -> GenTx {
+                let events = (0..m).map(|_| { let idx = w.next_event_idx; w.next_event_idx += 1;
+                    // every field as incompressible as the format allows (random names, metadata and a
+                    // full-width timestamp): the stored record then exceeds the uncompressed estimate
+                    let rnd_name = |ctx: &mut Ctx, n: usize| -> String { (0..n).map(|_| (b'a' + ctx.rng.below(26) as u8) as char).collect() };
+                    let (stream, name, meta, ts) = if hard {
+                        (format!("s0-{}", rnd_name(ctx, 24)), rnd_name(ctx, 12), ctx.rng.bytes(24), (1u64 << 62) | (ctx.rng.next() >> 2))
+                    } else { ("s0-0".to_string(), "n".to_string(), vec![], 9) };
+                    GenEvent { id: sierradb::id::uuid_v7_with_partition_hash(sierradb::id::uuid_to_partition_hash(pkey)), idx, stream,
+                        exp: sierradb_protocol::ExpectedVersion::Any, ts, name, meta, payload: ctx.rng.bytes(plen) } }).collect();
+                GenTx { pkey, pk_idx, pid, exp_seq: sierradb_protocol::ExpectedVersion::Any, events }
+            };
+            let tx = mk_multi(&mut w, ctx);
+            // the transaction id is fixed beforehand: it is part of every stored (compressed) record
+            let txid = uuid::Uuid::from_bytes(ctx.rng.bytes(16).try_into().unwrap());
+            let txid = sierradb::id::set_uuid_flag(txid, false);
+            let stored: usize = stored_sizes(&tx, txid, &w.spec, w.cfg.nb, w.cfg.compression).iter().sum::<usize>() + COMMIT_SIZE;
+            let target_left = (stored as u64).saturating_sub(1 + ctx.rng.below(16));
+            // fill to exactly target_left bytes free with single incompressible events
+            let mut landed = false;
+            for _ in 0..40 {
+                let left = w.cfg.segsize as u64 - live_end(&w);
+                if left == target_left { landed = true; break; }
+                if left < target_left + 140 { break; }
+                let need = ((left - target_left) as usize).min(20_000);
+                // payload length so that the stored record is exactly `need` bytes (or a chunk when far away)
+                let mut p = need.saturating_sub(140).max(1);
+                let mut f = mk(&mut w, ctx, p, false);
+                if need < 20_000 {
+                    for _ in 0..4 {
+                        let sz = stored_sizes(&f, uuid::Uuid::from_u128(1), &w.spec, w.cfg.nb, w.cfg.compression)[0];
+                        if sz == need { break; }
+                        p = (p as i64 + need as i64 - sz as i64).max(1) as usize;
+                        f.events[0].payload = ctx.rng.bytes(p);
+                    }
+                }
+                if !do_append(ctx, &mut w, &f).await.starts_with("ok") { break; }
+            }
+            if landed {
+                ctx.stat("space_multi_boundary_appends");
+                let b = w.spec.txs.len();
+                w.force_txid.set(Some(txid));
+                let line = do_append(ctx, &mut w, &tx).await;
+                if line.starts_with("ok") && w.spec.txs.len() > b { check_acked_visible(ctx, &mut w, b, "right after the acknowledgement").await; }
+                if !line.starts_with("ok") { let tx2 = mk_multi(&mut w, ctx); let _ = do_append(ctx, &mut w, &tx2).await; }
+            } else { ctx.stat("space_multi_boundary_missed"); }
         }
         // a highly compressible event larger than a segment by its uncompressed size, but tiny once stored
         if w.cfg.compression && ctx.rng.chance(1, 2) {
